@@ -12,36 +12,50 @@ REPO_SOURCES = ["src/Algorithms/GradientDescent/AbstractLineSearchOptimizer.cpp"
                 "src/Algorithms/GradientDescent/Rprop.cpp",
                 "src/Algorithms/GradientDescent/TrustRegionNewton.cpp",
                 "src/Core/Random.cpp"]
-LAKE_TARGETS = ["SharkVerif.Props.C10", "drv_c10"]
+LAKE_TARGETS = ["SharkVerif.Props.C10", "SharkVerif.Gen.LbfgsBox", "drv_c10"]
 
 TRUST = ("Lean 4.33 kernel; axioms at most propext/Classical.choice/Quot.sound (audited per run); hand-written model "
          "tied to the C++ by the correspondence harness (differential, generator-bounded); ")
 MANIFEST = dict(
   text=("Theorems (Props/C10.lean) about executable models of SteepestDescent, Adam, the Rprop family, "
-        "AbstractLineSearchOptimizer with BFGS / CG / L-BFGS (unconstrained direction) and the backtracking line search, "
+        "AbstractLineSearchOptimizer with BFGS / CG / L-BFGS (unconstrained direction AND the box-constrained Cauchy-point/dog-leg direction getBoxConstrainedDirection) and the backtracking line search, "
         "for every objective (arbitrary f, grad, feasibility predicate), starting point, parameter setting and number of steps: "
         "best_value_is_f_best_point (reported value = f(reported point) after init and every step, for every optimizer of the model and every scalar type incl. Float), "
         "ls_derivative_is_grad_best_point, backtracking_no_increase (+ failure leaves point/value/gradient unchanged), "
         "linesearch_methods_monotone_bfgs (the values reported by BFGS with any dimension-preserving no-increase line search, in particular backtracking, are non-increasing over the whole run, "
         "because bfgsUpdate_listPD keeps the list-based inverse-Hessian approximation symmetric positive definite (transported from bfgs_update_symPD on Mathlib matrices) and bfgs_direction_descent gives g'd<0), "
         "linesearch_methods_monotone_partial (any of BFGS/CG/L-BFGS: one step does not increase the value given a non-ascent direction), direction_descent_neg_gradient, "
+        "box-constrained L-BFGS direction, for every dimension, box, point inside the box, gradient and every pair of implicit matrices positive on the projected gradient: "
+        "coords_ok (what the split into movable and blocked variables guarantees), box_direction_feasible_partial (x + d stays in the box unless the Cauchy point touches a bound; box_direction_touching_witness shows the hypothesis cannot be dropped = finding F-C10-12), "
+        "box_direction_descent (g'd < 0 whenever the projected gradient is non-zero) and box_direction_nonzero (d != 0 in that case: the clipped step lengths are positive because the loop only takes minima with positive numbers), "
         "sd/adam/rprop/ls/trn_step_reads_archived (against member lists regenerated from the C++ read/write bodies by translate/opt_fields.py on every run: every member step reads is archived, read mirrors write, the archive is the model's Saved structure), "
         "box_feasible_inv_rprop (Rprop never leaves the feasible set), resume_same_iterates (read(write s) = s for the archived members, so a restored instance continues with the same iterates). "
         "Tie: SteepestDescent/Adam/Rprop are compared bit for bit (Float instance of the same definitions, same operation order) and, for every C++ step that raised no FE_INEXACT, "
-        "exactly with the Rat instance; BFGS/CG/L-BFGS by one-step refinement from the harness' own previous state (bit-identical in >90% of the steps, 1e-9 tolerance otherwise); "
+        "exactly with the Rat instance; all 8 Rprop variants (useFreezing x useBacktracking x useOldValue) are additionally run on non-separable quadratics in boxes narrower than the step sizes placed around the minimiser; "
+        "BFGS/CG/L-BFGS by one-step refinement from the harness' own previous state (bit-identical in >90% of the steps, 1e-9 tolerance otherwise), for box-constrained L-BFGS including the history update and the dog-leg direction "
+        "(active set reproduced bit for bit; multBInv/multB of the real code are inputs of the model; the text of getBoxConstrainedDirection is pinned by translate/lbfgs_box.py, which also selects the model variant the tree contains); "
+        "getBoxConstrainedDirection is additionally called directly on injected states (every coordinate on its lower bound / on its upper bound / inside, gradient component zero / inward / outward, narrow and wide boxes, 0..3 curvature pairs, exact ties) "
+        "with an independent oracle (finite, x+d in the box, blocked coordinates do not move, d = 0 iff the projected gradient is 0, g'd < 0); "
         "the line searches are additionally called directly from arbitrary points along arbitrary (descent, ascent, zero, random) directions (backtracking compared with the model, all three types checked against the contracts value=f(point), gradient=grad(point), no increase when g'd<=0); "
+        "object reuse: a used optimizer is initialised again (every optimizer; compared from then on with a brand-new instance and with the model's fresh init: init must reset step sizes, moments, counters, history, Hessian approximation); configuration axes crossed on every run: line-search type (also requested on box-constrained objectives, where init forces backtracking), initial bracket minInterval/maxInterval, L-BFGS history size, TrustRegionNewton initial radius and minImprovementRatio, all setters of SteepestDescent/Adam/Rprop; "
+        "per-step oracle on every run: value = f(point) bit for bit, finite, feasible (BoxConstraintHandler::isFeasible AND plain comparisons with the bounds), no increase for line-search methods and TRN, restored instance = uninterrupted twin; "
+        "convergence oracle (numerical, tolerance 1e-6(1+||b||_inf) on the KKT residual x - clamp(x - g, l, u), which is the gradient without a box) after 300/400/1000 steps on strictly convex quadratics, "
+        "for box-constrained L-BFGS on problems whose minimiser has active upper and lower bounds, from starting points inside, on faces and in corners; "
         "save/restore at random step indices through text and binary archives into a 0xFF-poisoned fresh instance, strict and lenient protocol."),
   note=TRUST + "monotonicity over whole runs is proved for BFGS only; for CG and L-BFGS only the one-step statement under the hypothesis that the direction is a non-ascent direction "
-       "(not provable for the C++ CG restart branch d := d - g, nor for Dai-Yuan CG with an Armijo-only line search; the L-BFGS two-loop recursion is modelled and tied but its positive definiteness is not proved); "
+       "(not provable for the C++ CG restart branch d := d - g, nor for Dai-Yuan CG with an Armijo-only line search; the L-BFGS two-loop recursion is modelled and tied but its positive definiteness is not proved, "
+       "so box_direction_descent/nonzero carry p0'Bp0 > 0 and p0'B^-1 p0 > 0 as hypotheses; multB (compact representation, BLAS) is a parameter of the model, not modelled); "
+       "the repaired variants of the box direction (clipping by the sign of the direction, scaled Cauchy step; selected from the source text by translate/lbfgs_box.py) are modelled, tied bit for bit and have their own theorems: box_direction_feasible_repaired (no touching hypothesis, no hypothesis on the matrices), box_direction_descent_repaired, box_direction_nonzero_repaired; "
        "only exercised by the correspondence / harness oracle (not theorems): dlinmin and wolfecubic line searches (contracts LSSound/LSNoIncrease are hypotheses, checked per step on the real code), "
-       "the box-constrained L-BFGS dog-leg (feasibility + monotonicity oracle only), TrustRegionNewton (oracle only: value=f(point), finite, no increase, resume), "
-       "finiteness, convergence on strictly convex quadratics (numerical: ||grad||_inf <= 1e-6(1+||b||_inf) after 400/1000 steps). "
-       "Findings F8a-e, F9, F10, F11 (findings_proposed/C10.md) make the check fail on the unpatched tree; it is green on the tree with the proposed patches.",
-  technique="Lean 4 invariant/refinement proofs over all step sequences + differential correspondence with the C++ (ASan/UBSan), bit-exact and exact-rational modes",
-  design="§6 C10")
+       "TrustRegionNewton (oracle only: value=f(point), finite, no increase, resume), finiteness, convergence on strictly convex quadratics (numerical oracle inside the harness, tolerance as stated). "
+       "Open findings on the unpatched tree (known_findings.json, findings_proposed/C10.md): F11, F-C10-12 (dog-leg ignores a bound at distance 0: infeasible direction / 'internal error'), "
+       "F-C10-13 (stall when an iterate is outside the box by rounding), F-C10-14 (Cauchy step lacks the factor |p0|^2: thousands of steps), F-C10-15 (low severity: freeze at relative accuracy 1e-5 when a movable variable is 1e-12 from the bound it moves to); the check is green on the tree with the proposed patches and follows them automatically.",
+  technique="Lean 4 invariant/refinement proofs over all step sequences + differential correspondence with the C++ (ASan/UBSan), bit-exact and exact-rational modes; independent numerical oracles in the harness",
+  design="§6 C10, §14 C10")
 FINISH = dict(level="proof",
               rule="one case = objective (integer strictly convex quadratic A=M'M+kI n<=5 | Rosenbrock n<=4, optional dyadic box) + optimizer + "
-                   "dyadic starting point + steps with save/restore ops at random indices; non-trivial = at least 3 steps; distinct = distinct op text")
+                   "dyadic starting point + steps with save/restore ops at random indices | direct line searches | direct calls of getBoxConstrainedDirection "
+                   "on injected states | Rprop variant x narrow box | box-constrained L-BFGS convergence problem; non-trivial = at least 3 steps/calls; distinct = distinct op text")
 
 
 def fb(x):
@@ -120,8 +134,17 @@ def gen_scalar_case(r, maxsteps):
     oname, oline = gen_scalar_opt(r, box, kind)
     ops.append(oline)
     ops.append("init " + nums(gen_x0(r, n, box, small=(kind[0] == "rosen"))))
-    nsteps = r.range(1, maxsteps)
-    nsave = r.choice([0, 1, 1, 2, 3])
+    ops += gen_tail(r, r.range(1, maxsteps))
+    if r.chance(1, 4):
+        # object reuse: the used optimizer is initialised again from another starting point (init must reset everything)
+        ops.append("init " + nums(gen_x0(r, n, box, small=(kind[0] == "rosen"))))
+        ops += gen_tail(r, r.range(1, maxsteps))
+    return ops
+
+
+def gen_tail(r, nsteps, nsave=None):
+    ops = []
+    nsave = r.choice([0, 1, 1, 2, 3]) if nsave is None else nsave
     saves = sorted(r.range(0, nsteps) for _ in range(nsave))
     for i in range(nsteps + 1):
         for s in saves:
@@ -132,6 +155,60 @@ def gen_scalar_case(r, maxsteps):
     return ops
 
 
+def solve_int(A, b):
+    """exact solution of A x = b (Fractions), A symmetric positive definite"""
+    from fractions import Fraction as Fr
+    n = len(b)
+    M = [[Fr(A[i][j]) for j in range(n)] + [Fr(b[i])] for i in range(n)]
+    for c in range(n):
+        p = next(i for i in range(c, n) if M[i][c] != 0)
+        M[c], M[p] = M[p], M[c]
+        for i in range(n):
+            if i != c and M[i][c] != 0:
+                f = M[i][c] / M[c][c]
+                M[i] = [a - f * b2 for a, b2 in zip(M[i], M[c])]
+    return [M[i][n] / M[i][i] for i in range(n)]
+
+
+def gen_rprop_box_case(r, maxsteps, flags):
+    """Rprop variant `flags` = (useFreezing, useBacktracking, useOldValue) on a NON-SEPARABLE strictly convex quadratic
+    with a box that is narrow relative to the step sizes (width 1/4 .. 8 times initDelta per coordinate) and placed around
+    the unconstrained minimiser, so that steps are undone as infeasible, partial derivatives change sign while the
+    coordinate is held at (or next to) a bound, and the opposite bound is closer than one step"""
+    n = r.choice([2, 2, 3, 3, 4])
+    while True:
+        A = spd_int(r, n)
+        if any(A[i][j] for i in range(n) for j in range(n) if i != j): break
+    b = [r.range(-4, 4) for _ in range(n)]
+    xs = solve_int(A, b)
+    d0 = r.choice([0.0078125, 0.015625, 0.125, 0.5])
+    lo, hi, x0 = [], [], []
+    for i in range(n):
+        c = round(float(xs[i]) * 256) / 256 + r.choice([0, 0, 1, -1, 3, -3]) * d0 / 4
+        w = d0 * r.choice([0.25, 0.5, 1, 2, 8])
+        off = r.range(0, 8)
+        l, h = c - w * off / 8, c + w * (8 - off) / 8
+        lo.append(l); hi.append(h)
+        x0.append(l + (h - l) * r.range(0, 8) / 8)
+    ops = ["obj quad %d %s %s" % (n, nums(x for row in A for x in row), nums(b)), "box %s %s" % (nums(lo), nums(hi))]
+    ops.append("opt rprop " + nums([r.choice([1.2, 1.5, 2.0]), r.choice([0.5, 0.25]), r.choice([1e100, 1.0, 4.0]),
+                                   r.choice([0.0, 0.0009765625]), flags[0], flags[1], flags[2], d0]))
+    ops.append("init " + nums(x0))
+    return ops + gen_tail(r, r.range(max(2, maxsteps // 2), maxsteps))
+
+
+def ls_opt_line(r, kind, ls):
+    """configuration axes: line-search type, initial bracket of dlinmin (LineSearch::minInterval/maxInterval),
+    L-BFGS history size, TrustRegionNewton initial radius and minImprovementRatio"""
+    br = r.choice([None, None, (0.0, 1.0), (0.0, 0.5), (0.0, 2.0), (0.25, 1.0)])
+    if kind == "trn":
+        if r.chance(1, 2): return "opt trn"
+        return "opt trn " + nums([r.choice([0.1, 1.0, 0.015625, 8.0]), r.choice([0.1, 0.05, 0.2, 0.01])])
+    if kind == "lbfgs":
+        return "opt lbfgs " + nums([ls, r.choice([1, 2, 3, 5, 100])] + (list(br) if br else []))
+    return f"opt {kind} " + nums([ls] + (list(br) if br else []))
+
+
 def gen_ls_case(r, maxsteps, converge=False):
     """BFGS / CG / L-BFGS (box constraints: L-BFGS only) / trust-region Newton"""
     kind = r.choice(["bfgs", "bfgs", "cg", "cg", "lbfgs", "lbfgs", "lbfgs", "trn"])
@@ -140,25 +217,52 @@ def gen_ls_case(r, maxsteps, converge=False):
         ops, n, okind, box = gen_objective(r, boxed=boxed)
         if not converge or okind[0] == "quad":
             break
-    ls = 2 if boxed else r.choice([0, 1, 1, 2, 2])
-    if kind == "trn":
-        ops.append("opt trn")
-    elif kind == "lbfgs":
-        ops.append("opt lbfgs " + nums([ls, r.choice([1, 2, 3, 5, 100])]))
-    else:
-        ops.append(f"opt {kind} " + nums([ls]))
+    # a box-constrained objective forces backtracking inside init whatever the user configured: request all three types
+    ls = r.choice([0, 1, 2, 2]) if boxed else r.choice([0, 1, 1, 2, 2])
+    ops.append(ls_opt_line(r, kind, ls))
     ops.append("init " + nums(gen_x0(r, n, box, small=(okind[0] == "rosen"))))
     nsteps = maxsteps if converge else r.range(1, maxsteps)
-    nsave = 0 if converge else r.choice([0, 1, 1, 2, 3])
-    saves = sorted(r.range(0, nsteps) for _ in range(nsave))
-    for i in range(nsteps + 1):
-        for sv in saves:
-            if sv == i:
-                ops.append("save %s %s" % (r.choice(["text", "bin"]), r.choice(["strict", "lenient"])))
-        if i < nsteps:
-            ops.append("step")
+    if converge and r.chance(1, 3):
+        # convergence from a re-initialised, used instance
+        ops += ["step"] * r.range(1, 8) + ["init " + nums(gen_x0(r, n, box, small=False))]
+    ops += gen_tail(r, nsteps, nsave=0 if converge else None)
+    if not converge and r.chance(1, 4):
+        ops.append("init " + nums(gen_x0(r, n, box, small=(okind[0] == "rosen"))))
+        ops += gen_tail(r, r.range(1, maxsteps))
     if converge:
         ops.append("converged " + fb(1e-6))
+    return ops
+
+
+def gen_lbfgs_box_converge_case(r, nsteps):
+    """convergence clause for box-constrained L-BFGS: strictly convex quadratic whose unconstrained minimiser lies outside
+    the box in several coordinates (above the upper bound in some, below the lower bound in others), so that the minimiser
+    over the box has active upper AND lower bounds; starting points strictly inside, on faces and in corners; the KKT
+    residual is checked after the budget"""
+    from fractions import Fraction as Fr
+    n = r.choice([2, 2, 3, 3, 4, 5, 6])
+    A = spd_int(r, n)
+    lo = [r.choice([0.0, 0.0, -1.0, -0.5]) for _ in range(n)]
+    hi = [l + r.choice([1.0, 1.0, 2.0, 0.5]) for l in lo]
+    # unconstrained minimiser c: outside above / outside below / inside, per coordinate
+    c = []
+    for i in range(n):
+        k = r.below(5)
+        w = hi[i] - lo[i]
+        if k < 2: c.append(hi[i] + w * r.range(1, 8) / 8)
+        elif k < 4: c.append(lo[i] - w * r.range(1, 8) / 8)
+        else: c.append(lo[i] + w * r.range(1, 7) / 8)
+    b = [sum(A[i][j] * c[j] for j in range(n)) for i in range(n)]
+    mode = r.below(4)
+    x0 = []
+    for i in range(n):
+        if mode == 0: x0.append(lo[i] + (hi[i] - lo[i]) * r.range(1, 15) / 16)           # strictly inside
+        elif mode == 1: x0.append(r.choice([lo[i], hi[i]]))                                 # corner
+        else: x0.append(r.choice([lo[i], hi[i], lo[i] + (hi[i] - lo[i]) * r.range(0, 16) / 16]))   # faces
+    ops = ["obj quad %d %s %s" % (n, nums(x for row in A for x in row), nums(b)), "box %s %s" % (nums(lo), nums(hi)),
+           "opt lbfgs " + nums([r.choice([0, 1, 2]), r.choice([1, 2, 3, 5, 100])]), "init " + nums(x0)]
+    ops += ["step"] * nsteps
+    ops.append("converged " + fb(1e-6))
     return ops
 
 
@@ -183,6 +287,61 @@ def gen_linesearch_case(r, nls):
     return ops
 
 
+def spd_int(r, n):
+    M = [[r.range(-2, 2) for _ in range(n)] for _ in range(n)]
+    k = r.choice([1, 1, 2, 4])
+    return [[sum(M[t][i] * M[t][j] for t in range(n)) + (k if i == j else 0) for j in range(n)] for i in range(n)]
+
+
+def gen_boxdir_case(r, ncalls):
+    """direct calls of LBFGS::getBoxConstrainedDirection on injected states: every coordinate independently ON its lower
+    bound / ON its upper bound / strictly inside, gradient component zero / pushing inward / pushing outward, small and
+    large, narrow and wide boxes (so that the quasi-Newton step and the Cauchy step are frequently infeasible), history of
+    0..3 curvature pairs (s, y = A s) of a strictly convex quadratic (so that the L-BFGS matrix is positive definite), and
+    exact ties: a bound placed exactly on the Cauchy point"""
+    n = r.choice([1, 2, 2, 3, 3, 4, 5])
+    A = spd_int(r, n)
+    ops = ["obj quad %d %s %s" % (n, nums(x for row in A for x in row), nums([0] * n))]
+    ties = r.chance(1, 4)      # exact ties / zero gradient on a bound: in cases of their own (known finding F-C10-12)
+    for _ in range(ncalls):
+        m = r.choice([0, 0, 1, 1, 2, 3])
+        S = []
+        for _j in range(m):
+            while True:
+                sv = [r.range(-8, 8) / 4 for _ in range(n)]
+                if any(sv): break
+            S.append(sv)
+        Y = [[sum(A[i][j] * sv[j] for j in range(n)) for i in range(n)] for sv in S]
+        if m:
+            ys = sum(a * b for a, b in zip(Y[-1], S[-1]))
+            bdiag = sum(a * a for a in Y[-1]) / ys
+        else:
+            bdiag = r.choice([1, 1, 0.5, 2, 4])
+        narrow = r.chance(1, 3)
+        l, u, x, g = [], [], [], []
+        for i in range(n):
+            w = r.choice([1 / 64, 1 / 16, 1 / 4]) if narrow and r.chance(1, 2) else r.choice([1, 2, 4, 8]) / r.choice([1, 2, 4])
+            lo = -w * r.choice([1, 1, 2, 0]); hi = w
+            k = r.below(4)
+            xi = lo if k == 0 else (hi if k == 1 else lo + (hi - lo) * r.range(0, 16) / 16)
+            gi = r.choice([0, 1, -1, 1, -1]) * r.choice([1 / 8, 1, 1, 4, 32])
+            if gi == 0 and k < 2 and not ties: gi = r.choice([1, -1]) * r.choice([1 / 8, 1, 4])
+            l.append(lo); u.append(hi); x.append(xi); g.append(gi)
+        if ties and m == 0 and r.chance(1, 2):
+            # exact tie: the Cauchy point x + p0/(p0'Bp0), B = bdiag*I, lands exactly on a bound of coordinate i
+            c = bdiag * sum(v * v for v in g)
+            idx = [i for i in range(n) if g[i] != 0]
+            if idx and c > 0:
+                i = r.choice(idx)
+                x[i] = 0.0
+                cau = -g[i] / c
+                if cau > 0: u[i] = cau; l[i] = -1.0
+                else: l[i] = cau; u[i] = 1.0
+        ops.append("boxdir %d %s %s %s %s %s%s%s" % (m, fb(bdiag), nums(x), nums(g), nums(l), nums(u),
+                   "".join(" " + nums(sv) for sv in S), "".join(" " + nums(yv) for yv in Y)))
+    return ops
+
+
 def case_info(ops):
     info = {"opt": "?", "obj": "?", "n": 0, "box": False, "saves": [], "steps": 0}
     for o in ops:
@@ -191,8 +350,9 @@ def case_info(ops):
         elif t[0] == "box": info["box"] = True
         elif t[0] == "opt": info["opt"] = t[1]
         elif t[0] == "save": info["saves"].append(t[2])
-        elif t[0] in ("step", "ls"): info["steps"] += 1
+        elif t[0] in ("step", "ls", "boxdir"): info["steps"] += 1
         if t[0] == "ls" and info["opt"] == "?": info["opt"] = "linesearch"
+        if t[0] == "boxdir" and info["opt"] == "?": info["opt"] = "boxdir"
     return info
 
 
@@ -258,7 +418,7 @@ def run_case_ls(ctx, hcmd, dcmd, ops, timeout=120, stats=None):
         r.impl, r.stderr, rc = [], "TIMEOUT", -99
     if rc != 0:
         r.crash, r.ok = True, False
-    dops, expect, kind = [], [], None
+    dops, expect, kind, boxed = [], [], None, False
     for i, o in enumerate(ops):
         t = o.split()
         line = r.impl[i] if i < len(r.impl) else ""
@@ -266,12 +426,15 @@ def run_case_ls(ctx, hcmd, dcmd, ops, timeout=120, stats=None):
         if orc:
             r.oracle.append(line); r.ok = False
         m = re.search(r" st=(\S+)", payload)
+        mbx = re.search(r" bx=(\S+)", payload)
         if t[0] in ("obj", "box"):
+            boxed = (t[0] == "box") or (boxed and t[0] != "obj")
             dops.append(o); expect.append("plain")
         elif t[0] == "opt":
             kind = t[1]
             if kind in LS_KINDS:
-                ls = int(struct.unpack("<d", bytes.fromhex(t[2][1:])[::-1])[0])
+                # a constrained objective forces the backtracking line search inside init
+                ls = 2 if boxed else int(struct.unpack("<d", bytes.fromhex(t[2][1:])[::-1])[0])
                 nh = int(struct.unpack("<d", bytes.fromhex(t[3][1:])[::-1])[0]) if kind == "lbfgs" else 100
                 dops.append(f"xopt {kind} {ls} {nh}")
             else:
@@ -284,8 +447,12 @@ def run_case_ls(ctx, hcmd, dcmd, ops, timeout=120, stats=None):
                 dops.append("xls %d %s %s" % (n, ",".join(t[2:]), m.group(1).split(",", 1)[1])); expect.append("verdict")
             else:
                 dops.append(""); expect.append("skip")
+        elif t[0] == "boxdir" and m:
+            n = int(m.group(1).split(",")[0])
+            dops.append("xboxdir %d %s %s %s" % (n, t[1], ",".join(t[2:]), m.group(1).split(",", 1)[1])); expect.append("verdict")
         elif t[0] in ("init", "step") and kind in LS_KINDS and m:
-            dops.append(("xinit " if t[0] == "init" else "xstep ") + m.group(1)); expect.append("verdict")
+            dops.append(("xinit " if t[0] == "init" else "xstep ") + m.group(1) + (" " + mbx.group(1) if mbx and t[0] == "step" else ""))
+            expect.append("verdict")
         else:
             dops.append(""); expect.append("skip")
     pd = subprocess.run(dcmd, input="\n".join(dops) + "\n", stdout=subprocess.PIPE, stderr=subprocess.PIPE,
@@ -323,8 +490,33 @@ def classify(ops, res):
     otext = " ".join(res.oracle)
     if opt == "trn" and "increased" in tags:
         return ("F10:trn-accepts-increase", f"TrustRegionNewton accepts a step that increases the objective (borderDistance sign); ops {ops}")
-    if opt == "lbfgs" and "internal error" in otext:
-        return ("F11:lbfgs-box-internal-error", f"box-constrained LBFGS throws 'internal error' from computeSearchDirection; ops {ops}")
+    # ---- known findings of the box-constrained L-BFGS direction; each key is tied to the harness' diagnosis of the
+    # specific circumstance, anything else about the same function is a fresh violation
+    TOUCH = "boxdir-infeasible-cauchy-point-touches-bound"
+    if any(t.startswith("boxdir") for t in tags):
+        other = [t for t in tags if t != TOUCH]
+        if not other and not res.crash and res.diff_at is None:
+            return ("F-C10-12:lbfgs-box-dogleg-ignores-touching-bound",
+                    f"getBoxConstrainedDirection returns an infeasible direction: the dog-leg stage skips a bound at distance exactly 0 (Cauchy point on the bound / variable on its bound with zero gradient); ops {ops}")
+        if other:
+            return (f"oracle:{'+'.join(other)}:boxdir", f"property oracle of getBoxConstrainedDirection failed ({other}) on ops {ops}")
+    if opt == "lbfgs" and info["box"] and "internal error" in otext:
+        first = next(l for l in res.oracle if "internal error" in l)
+        if "[point-outside-by-slack]" in first:
+            return ("F11:lbfgs-box-internal-error", f"box-constrained LBFGS throws 'internal error' from computeSearchDirection (iterate outside the box by less than the slack of isFeasible); ops {ops}")
+        if "[cauchy-point-touches-bound]" in first:
+            return ("F-C10-12:lbfgs-box-dogleg-ignores-touching-bound:run",
+                    f"box-constrained LBFGS throws 'internal error': the dog-leg stage skips a bound at distance exactly 0; ops {ops}")
+        return ("oracle:lbfgs-box-internal-error-point-in-box", f"box-constrained LBFGS throws 'internal error' at a point exactly inside the box; ops {ops}")
+    if opt == "lbfgs" and info["box"] and tags == ["not-converged-slack-outside"] and not res.crash:
+        return ("F-C10-13:lbfgs-box-not-converged-iterate-outside-by-slack",
+                f"box-constrained LBFGS stalls: an iterate lies outside the box by rounding (less than the slack of isFeasible) and the Cauchy step is clipped against the bound behind it; ops {ops}")
+    if opt == "lbfgs" and info["box"] and tags == ["not-converged-frozen-near-bound"] and not res.crash:
+        return ("F-C10-15:lbfgs-box-not-converged-variable-almost-on-bound",
+                f"box-constrained LBFGS freezes close to the minimiser: a movable variable is within 1e-9 (but not 1e-13) of the bound it moves to, the clipped step is too short for the line search; ops {ops}")
+    if opt == "lbfgs" and info["box"] and tags == ["not-converged-still-descending-large-gradient"] and not res.crash:
+        return ("F-C10-14:lbfgs-box-not-converged-cauchy-step-unscaled",
+                f"box-constrained LBFGS needs thousands of steps: the Cauchy step p0/(p0'Bp0) lacks the factor |p0|^2; ops {ops}")
     if opt == "lbfgs" and info["box"] and "input stream error" in otext:
         return ("F9:lbfgs-box-nan-direction", f"box-constrained LBFGS stores a NaN search direction at a stationary boundary point; its text archive cannot be read back; ops {ops}")
     if saves_before and (res.crash or "resume-diverged" in tags or "exception" in tags or res.why.startswith("model-differs")):
@@ -354,6 +546,7 @@ def correspond(ctx, name, cases, hcmd, dcmd, max_report=6, keep_prefix=0, run_ca
     if big.ok:
         ctx.log(f"{name}: {len(cases)} cases / {len(all_ops)} ops agree ({time.time()-t:.1f}s) {stats}")
         return 0
+    ctx.log(f"{name}: batch run disagrees after {time.time()-t:.1f}s; running the {len(cases)} cases one by one")
     with ThreadPoolExecutor(max_workers=6) as ex:
         results = list(ex.map(lambda c: run_case(ctx, hcmd, dcmd, c), cases))
     failing = [(c, r) for c, r in zip(cases, results) if not r.ok]
@@ -371,6 +564,8 @@ def correspond(ctx, name, cases, hcmd, dcmd, max_report=6, keep_prefix=0, run_ca
         # keep the header (everything up to and including init), shrink the step/save tail
         hdr = next((i for i, o in enumerate(c) if o.startswith("init")), 0) + 1
         # (a convergence failure is a statement about the whole budget: not shrunk)
+        if case_info(c)["opt"] == "boxdir":
+            hdr = 1      # keep the objective line, shrink the list of direct calls
         small = core.shrink_ops(c, fails, keep_prefix=hdr) if len(c) > hdr + 1 and "not-converged" not in key0 else c
         rs = run_case(ctx, hcmd, dcmd, small, timeout=60)
         if rs.ok:
@@ -400,7 +595,9 @@ def load_corpus():
 
 
 def translate(ctx):
-    return ctx.translate("opt_fields.py")
+    a = ctx.translate("opt_fields.py")
+    b = ctx.translate("lbfgs_box.py")
+    return a and b
 
 
 def build(ctx):
@@ -456,6 +653,9 @@ def run(ctx):
     nsc, maxsteps = (160, 30) if ctx.quick else (1500, 120)
     cases = [c for c in corpus if case_info(c)["opt"] in ("sd", "adam", "rprop")]
     cases += [gen_scalar_case(r, maxsteps) for _ in range(nsc)]
+    # all 8 Rprop variants (useFreezing x useBacktracking x useOldValue) on narrow boxes, non-separable objectives
+    variants = [(a, b2, c2) for a in (0, 1) for b2 in (0, 1) for c2 in (0, 1)]
+    cases += [gen_rprop_box_case(r, maxsteps, variants[i % 8]) for i in range(96 if ctx.quick else 960)]
     record(ctx, cases)
     ctx.cov["evaluations"] = len(cases)
     ctx.cov["distinct_nontrivial"] = len({"\n".join(c) for c in cases if case_info(c)["steps"] >= 3})
@@ -467,6 +667,10 @@ def run(ctx):
     # generous budget: CG with the backtracking line search needs > 100 steps on the worse-conditioned 5-d instances
     lcases += [gen_ls_case(r, 400 if ctx.quick else 1000, converge=True) for _ in range(nconv)]
     lcases += [gen_linesearch_case(r, 12) for _ in range(40 if ctx.quick else 400)]
+    # box-constrained L-BFGS: convergence (KKT residual) with active upper and lower bounds, starts on and off the boundary
+    lcases += [gen_lbfgs_box_converge_case(r, 300 if ctx.quick else 600) for _ in range(70 if ctx.quick else 700)]
+    # direct calls of getBoxConstrainedDirection (model of the dog-leg tied; oracle: feasible, descent, non-zero)
+    lcases += [gen_boxdir_case(r, 12) for _ in range(60 if ctx.quick else 600)]
     record(ctx, lcases)
     for c in lcases:
         for o in c:
